@@ -11,9 +11,9 @@ from gens import atoms_of, base_cells, make_supercell
 from reference import atom_perm_by_matching, projector_onto_admissible
 
 CELLS_QUICK = [("tri2_P1", (1, 1, 1)), ("mono_P", (2, 1, 1)), ("rutile_like", (1, 1, 1)), ("rhombo2", (2, 1, 1)), ("tri3_P1", (1, 1, 2)), ("ortho2", (1, 1, 1)),
-               ("tri2_Pm1", (3, 1, 1)), ("hcp", (1, 1, 1))]
+               ("tri2_Pm1", (3, 1, 1)), ("hcp", (1, 1, 1)), ("p4_general", (1, 1, 1)), ("p3_general", (1, 1, 1))]
 CELLS_MORE = [("wurtzite", (1, 1, 1)), ("wurtzite", (2, 1, 1)), ("sheared", (2, 1, 1)), ("needle", (1, 2, 1)), ("skew_unreduced", (1, 1, 1)), ("mono_P", (2, 2, 1)),
-              ("tri3_P1", (2, 1, 1)), ("si_prim", (1, 1, 1)), ("nacl_prim", (2, 1, 1)), ("flat", (1, 1, 3))]
+              ("tri3_P1", (2, 1, 1)), ("si_prim", (1, 1, 1)), ("nacl_prim", (2, 1, 1)), ("flat", (1, 1, 3)), ("p4_general", (1, 1, 2)), ("p3_general", (2, 1, 1))]
 
 
 def dense(m):
